@@ -37,7 +37,7 @@ def background(formulas):
     ax = []
     ax += str_const_axioms()
     ax += prelude.class_consts_axioms()
-    if uses(formulas, {'desc', 'subs_len', 'subs_at'}):
+    if uses(formulas, {'desc', 'subs_len', 'subs_arr'}):
         ax += prelude.hierarchy_axioms()
     import sys
     th = sys.modules.get('pyvc.theory')
